@@ -25,10 +25,12 @@ func defaultOpts(tier string) *interp.Options {
 		KnownOpen:    map[string]bool{},
 		Explore:      -1,
 		Params:       map[string]int{},
+		Witnesses:    3,
 	}
 	if tier == "thorough" {
 		o.AssertTimeMs = 120_000
 		o.TimeoutMs = 20_000
+		o.Witnesses = 10
 	}
 	return o
 }
